@@ -313,6 +313,48 @@ def three_ways(option, value, other=None):
     return None
 
 
+def relative_paths():
+    """path-valued options written relative to the working directory - on the command line and in pyproject.toml, with the output
+    next to the working directory or below it - against generate() with the absolute path. Returns violation text or None."""
+    import datamodel_code_generator as dm
+    src = Path(dm.__file__).parent / "model" / "template"
+    outs = {}
+    for where in ("out.py", "sub/out.py"):
+        for how in ("cli", "pyproject", "generate"):
+            for option, rel in (("custom_template_dir", "tpl"), ("custom_file_header_path", "header.txt")):
+                py = {option: rel} if how == "pyproject" else None
+                with sandbox(py) as d:
+                    shutil.rmtree(d / "tpl")
+                    shutil.copytree(src, d / "tpl")
+                    for f in (d / "tpl").rglob("*.jinja2"):
+                        if f.name in ("BaseModel.jinja2", "Enum.jinja2"):
+                            f.write_text("# custom-template-marker\n" + f.read_text())
+                    (d / "sub").mkdir()
+                    base = ["--input", "schema.json", "--output", where, "--disable-timestamp"]
+                    if how == "cli":
+                        code, _, err = run_main(base + ["--" + option.replace("_", "-"), rel], recorder=False)
+                    elif how == "pyproject":
+                        code, _, err = run_main(base, recorder=False)
+                    else:
+                        try:
+                            with contextlib.redirect_stderr(io.StringIO()):
+                                dm.generate(Path("schema.json"), output=Path(where), disable_timestamp=True, **{option: (d / rel).resolve()})
+                            code, err = 0, ""
+                        except Exception as e:  # noqa: BLE001
+                            code, err = 1, f"{type(e).__name__}: {e}"
+                    outs[(option, where, how)] = (d / where).read_text() if code == 0 and (d / where).exists() else f"<exit {code}: {err[-160:]}>"
+    for option in ("custom_template_dir", "custom_file_header_path"):
+        ref = outs[(option, "out.py", "generate")]
+        marker = "# custom-template-marker" if option == "custom_template_dir" else "# header"
+        if marker not in ref:
+            return None  # the option has no visible effect in this setting: nothing to compare
+        for (o, where, how), text in outs.items():
+            if o == option and text != ref:
+                return (f"{option} given as a relative path ({how}, output {where}): the output differs from generate({option}=<absolute path>) "
+                        f"({'custom text missing' if marker not in text else 'different text'}: {text[:120]!r})")
+    return None
+
+
 def falsy_cli(option, pyvalue="zz"):
     """An empty string given on the command line must still win over the pyproject value."""
     from datamodel_code_generator.arguments import arg_parser
@@ -392,7 +434,16 @@ def falsify(ctx):
     why = exit_codes()
     if why:
         ctx.violation("exit-codes", why, {"exit": True, "why": why})
+    _relative_paths_case(ctx)
     ctx.sample({"three_ways": [o for o, _ in todo[:5]]})
+
+
+def _relative_paths_case(ctx):
+    ctx.count("eval_e2e", 12)
+    ctx.nontrivial("relative-paths")
+    why = relative_paths()
+    if why:
+        ctx.violation("relative-paths", why, {"relative_paths": True, "why": why})
 
 
 def replay_finding(ctx, f):
@@ -427,6 +478,8 @@ def replay(ctx, payload):
         why = three_ways(r["option"], r["value"], r.get("other"))
     elif r.get("exit"):
         why = exit_codes()
+    elif r.get("relative_paths"):
+        why = relative_paths()
     else:
         print(json.dumps(payload, indent=1)[:3000])
         return 0
